@@ -700,16 +700,16 @@ def _sub_op(fs, sub: str, path: str, data: list, walk_limit: int, answers: list 
         if answers is not None:
             answers.append('getitem')
         with f.open_bin() as fh:
-            data.append(fh.read().decode())
+            data.append(fh.read(4096).decode(errors='replace'))
         f.cache_key()
         return 'file'
     if sub == 'open_bin':
         with fs.open_bin(path) as fh:
-            data.append(fh.read().decode())
+            data.append(fh.read(4096).decode(errors='replace'))
         return 'data'
     if sub == 'open_str':
         with fs.open_str(path) as fh2:
-            data.append(fh2.read())
+            data.append(fh2.read(4096))
         return 'data'
     if sub == 'read_kv1':       # the inherited entry points FileSystem.read_kv1 / read_prop (deprecated spelling)
         import warnings
@@ -730,7 +730,7 @@ def _sub_op(fs, sub: str, path: str, data: list, walk_limit: int, answers: list 
             break
         try:                            # a yielded handle may itself be refused (literal backslash names); keep walking
             with f.open_bin() as fh:
-                data.append(fh.read().decode())
+                data.append(fh.read(4096).decode(errors='replace'))
         except ValueError:
             pass
     return f'{n} files'
@@ -759,6 +759,7 @@ def run_op(base: str, root_spec: str, chain_prefix, op: str, path_t: str, cold: 
     handle = raw = unexpected = None
     cold_escape = exempt_answers = False
     exempt: set = set()
+    exempt_tops: list = []
     # one alarm around the whole case (preparation included); an operation takes milliseconds.  After the first hang the
     # limit drops (every further hanging case costs its full limit)
     limit = time_limit(30 if not HANGS else 3)
@@ -782,6 +783,9 @@ def run_op(base: str, root_spec: str, chain_prefix, op: str, path_t: str, cold: 
                 except Exception:
                     pass
             exempt = {_real(os.path.join(base, p)) for _, p in ev_u}
+            # ... and everything below a folder it walks: a walk that climbs out of the tree meets folders other processes
+            # are writing to (the scratch area), so two walks of it need not list the same files in the same order
+            exempt_tops = [_real(os.path.join(base, p)) for k_, p in ev_u if k_ == 'os.walk']
             exempt_answers = bool(ans_u)
         if op == 'handle_loose' and chain_prefix is not None:
             prep = 'no-handle:chain'          # a chain would open the wrapped handle through the unconstrained system
@@ -848,18 +852,18 @@ def run_op(base: str, root_spec: str, chain_prefix, op: str, path_t: str, cold: 
                     f = fs[path]
                     answers.append('getitem')
                     with f.open_bin() as fh:
-                        data.append(fh.read().decode())
+                        data.append(fh.read(4096).decode(errors='replace'))
                     with f.open_str() as fh2:
-                        data.append(fh2.read())
+                        data.append(fh2.read(4096))
                     f.cache_key()
                     out = 'ok:file'
                 elif op == 'open_bin':
                     with fs.open_bin(path) as fh:
-                        data.append(fh.read().decode())
+                        data.append(fh.read(4096).decode(errors='replace'))
                     out = 'ok:data'
                 elif op == 'open_str':
                     with fs.open_str(path) as fh2:
-                        data.append(fh2.read())
+                        data.append(fh2.read(4096))
                     out = 'ok:data'
                 elif op == 'walk':
                     n = rejected = 0
@@ -870,7 +874,7 @@ def run_op(base: str, root_spec: str, chain_prefix, op: str, path_t: str, cold: 
                         if n <= 60:
                             try:      # a yielded handle may itself be refused (literal backslash names); keep walking
                                 with f.open_bin() as fh:
-                                    data.append(fh.read().decode())
+                                    data.append(fh.read(4096).decode(errors='replace'))
                             except RootEscapeError:
                                 rejected += 1
                     out = f'ok:{n} files'
@@ -894,16 +898,16 @@ def run_op(base: str, root_spec: str, chain_prefix, op: str, path_t: str, cold: 
                         try:
                             if how == 'fs.open_bin':
                                 with fs.open_bin(handle) as fh:
-                                    data.append(fh.read().decode())
+                                    data.append(fh.read(4096).decode(errors='replace'))
                             elif how == 'fs.open_str':
                                 with fs.open_str(handle) as fh2:
-                                    data.append(fh2.read())
+                                    data.append(fh2.read(4096))
                             elif how == 'File.open_bin':
                                 with handle.open_bin() as fh:
-                                    data.append(fh.read().decode())
+                                    data.append(fh.read(4096).decode(errors='replace'))
                             elif how == 'File.open_str':
                                 with handle.open_str() as fh2:
-                                    data.append(fh2.read())
+                                    data.append(fh2.read(4096))
                             elif how == 'fs._get_cache_key':
                                 fs._get_cache_key(handle)
                             else:
@@ -939,13 +943,14 @@ def run_op(base: str, root_spec: str, chain_prefix, op: str, path_t: str, cold: 
         limit.__exit__(None, None, None)
         os.chdir(old)
     ignore = _ignored_prefixes()
-    escapes = [(k, p) for k, p in events if not is_inside(root, p) and not p.startswith(ignore) and _real(p) not in exempt
-               and not any(k2 == 'os.walk' and is_inside(p2, p) for k2, p2 in events if _real(p2) in exempt)]
+    def exempted(p: str) -> bool:
+        return _real(p) in exempt or any(is_inside(top, p) for top in exempt_tops)
+    escapes = [(k, p) for k, p in events if not is_inside(root, p) and not p.startswith(ignore) and not exempted(p)]
     leaked = []
     for d in data:
         # contents name the file they are in ('CONTENT-OF:<path relative to BASE>'); an error message may quote them
         for where in content_paths(base, d):
-            if not is_inside(root, where) and _real(where) not in exempt \
+            if not is_inside(root, where) and not exempted(where) \
                     and not (exempt and is_inside(base + '/elsewhere', where)):
                 leaked.append('CONTENT-OF:' + os.path.relpath(where, base))
     # an existence test / lookup that answers (instead of raising) about a name that lexically leads out of the root has
@@ -1854,6 +1859,10 @@ def run(ck: Ck) -> None:
         ck.explain('instance:root_')
         ck.explain('instance:constrain_flag')
         ck.explain('translate:Containment_gen')
+    if any(k.startswith(('hang-', 'unexpected-exception-')) for k in keys):
+        # the statement the translators could not read is the one that hangs / raises: the failing input is in hand
+        ck.explain('translate:Containment_gen')
+        ck.explain('translate:FsOps_gen')
     # A model/implementation disagreement is explained only when every disagreeing function belongs to the part whose
     # concrete violation was exhibited (unify_path by an escaping pack path, _resolve_path by an observed escape).
     if DISAGREE.get('ops') and any(k.startswith(ESCAPE_KEYS) for k in keys):
